@@ -185,3 +185,37 @@ func scenTiming(out *scenOut, r *rng, thorough bool) {
 	}
 	wg.Wait()
 }
+
+// `fps` stream: the frame interval newRenderer computes for a requested fps.
+func streamFPS(c *corrOut, r *rng, n int, thorough bool) map[string]interface{} {
+	emit := func(f int) {
+		d := tea.VerifFramerate(f)
+		bucket := "in-range"
+		if f < 1 {
+			bucket = "default"
+		} else if f > 120 {
+			bucket = "clamped"
+		}
+		c.emit(fmt.Sprintf("%d", f), fmt.Sprintf("%d", int64(d)), bucket)
+		// property C19 directly: the effective rate is within 1..120 and 60 by default
+		if d < time.Second/120 || d > time.Second || (f < 1 && d != time.Second/60) || (f >= 1 && f <= 120 && d != time.Second/time.Duration(f)) {
+			c.addFinding(finding{Property: "C19", Class: "new", What: "frame interval outside the documented clamp", Input: fmt.Sprint(f), Observed: d.String()})
+		}
+	}
+	for _, f := range []int{-9223372036854775808, -1000000, -1, 0, 1, 2, 59, 60, 61, 119, 120, 121, 1000, 1 << 40, 9223372036854775807} {
+		emit(f)
+	}
+	for f := -5; f <= 130; f++ {
+		emit(f)
+	}
+	for c.count < n {
+		emit(int(int64(r.next()) >> uint(r.intn(60))))
+	}
+	dflt, mx := tea.VerifConsts()
+	if dflt != 60 || mx != 120 {
+		c.addFinding(finding{Property: "C19", Class: "new", What: "defaultFPS/maxFPS differ from the documented 60/120", Observed: fmt.Sprint(dflt, mx)})
+	}
+	return nil
+}
+
+func init() { streams["fps"] = streamFPS }
